@@ -152,6 +152,10 @@ BUILD = {
     'fieldmap()[p] = (a, f); [q] = b': _suffix_fieldmap,
     'fieldmap{a: (a, f), b: b}': lambda t, kw, sel: etl.fieldmap(
         t, _od(('a', ('a', ref.conv)), ('b', 'b')), **kw),
+    'fieldmap{p: (zz, f), q: b, r: (a, f)} absent source field': lambda t, kw, sel: etl.fieldmap(
+        t, _od(('p', ('zz', ref.conv)), ('q', 'b'), ('r', ('a', ref.conv))), **kw),
+    'fieldmap{p: (zz, dict), q: (a, f)} absent source field': lambda t, kw, sel: etl.fieldmap(
+        t, _od(('p', ('zz', {1: 'one'})), ('q', ('a', ref.conv))), **kw),
     'rowmap(f)': lambda t, kw, sel: etl.rowmap(t, ref.rowmapper, header=('x', 'y', 'z'), **kw),
     'rowmap(natural)': lambda t, kw, sel: etl.rowmap(t, ref.rowmapper_natural, header=('x', 'y'), **kw),
     'fieldmap{p: (a, f), q: (b, f), r: b} on short rows': lambda t, kw, sel: etl.fieldmap(
